@@ -71,10 +71,17 @@ KuCases == { Case("csr-ku", Params(SetToSortedSeq(S), <<>>, <<>>, <<>>, DnOne, N
 StdEku == {"1.3.6.1.5.5.7.3.1", "1.3.6.1.5.5.7.3.2", "1.3.6.1.5.5.7.3.3", "1.3.6.1.5.5.7.3.4", "1.3.6.1.5.5.7.3.8", "1.3.6.1.5.5.7.3.9", "2.5.29.37.0"}
 KuEkuCases == { Case("csr-ku-eku", Params(ku, san, <<e>>, cu, DnOne, NoUnsup), <<>>, "ed25519") :
                   ku \in {<<>>, <<0>>, <<1>>, <<2>>, <<4>>, <<5, 6>>, <<1, 2>>}, e \in StdEku, san \in {<<>>, SanSome}, cu \in {<<>>, <<CuA>>} }
+(* an extension of the caller's own under the OID of an extension that a typed field of the same parameters produces too *)
+CuKu  == [oid |-> "2.5.29.15", crit |-> TRUE,  content |-> "03020780"]
+CuSan == [oid |-> "2.5.29.17", crit |-> FALSE, content |-> "30088206612e74657374"]
+CuEku == [oid |-> "2.5.29.37", crit |-> FALSE, content |-> "300a06082b06010505070301"]
+CustomDupCases == { Case("csr-custom-dup", Params(IF cu = CuKu THEN <<5, 6>> ELSE ku0, IF cu = CuSan THEN SanSome ELSE <<>>,
+                                                  IF cu = CuEku THEN <<"1.3.6.1.5.5.7.3.2">> ELSE <<>>, <<cu>>, dn, NoUnsup), <<>>, "ed25519") :
+                      cu \in {CuKu, CuSan, CuEku}, ku0 \in {<<>>, <<0>>}, dn \in {<<>>, DnOne} }
 Algs == {"ed25519", "ecdsa-p256-sha256", "ecdsa-p384-sha384", "ecdsa-p521-sha512", "rsa-sha256", "rsa-sha384", "rsa-sha512"}
 AlgCases == { Case("csr-alg", Params(<<0>>, SanSome, <<"1.3.6.1.5.5.7.3.1">>, <<>>, dn, NoUnsup), at, alg) :
                 alg \in Algs, dn \in {DnOne, DnMulti}, at \in {<<>>, <<A2, A1>>} }
-Cases == PresenceCases \cup RefusalCases \cup KuCases \cup KuEkuCases \cup AlgCases
+Cases == PresenceCases \cup RefusalCases \cup KuCases \cup KuEkuCases \cup CustomDupCases \cup AlgCases
 
 KeyRec(alg) == [h |-> "kR", alg |-> alg, spki |-> "spki-kR", raw |-> "raw-kR"]
 Args(k) == [params |-> k.params, key |-> KeyRec(k.alg), attrs |-> k.attrs, signerFails |-> FALSE]
